@@ -1,6 +1,6 @@
 (* Property C17 — CREATE SEQUENCE options are reported with exact values, in any order. *)
 From Coq Require Import String Ascii List ZArith NArith Bool.
-From SDP Require Import Base PyStr Lexer Actions Parse Seq SeqProofs.
+From SDP Require Import Base PyStr Lexer Actions Parse Engine Seq SeqProofs LexProofs IntProofs NumWordProofs.
 Import ListNotations.
 Open Scope string_scope.
 
@@ -14,6 +14,17 @@ Theorem C17_sequence_exact : forall (a : seq) (norm silent : bool),
   wf a = true -> parse_lexemes norm silent (lexemes a) = Ok (Some (denote norm a)).
 Proof. exact seq_parse. Qed.
 Print Assumptions C17_sequence_exact.
+
+(* the side conditions of wf hold for EVERY integer (any magnitude, either sign) written in decimal, with exactly that value, ... *)
+Theorem C17_every_integer_is_exact : forall z, is_num (string_of_Z z) = true /\ num_val (string_of_Z z) = PInt z.
+Proof. intro z. split; [apply is_num_string_of_Z|]. unfold num_val. rewrite int_of_string_of_Z. reflexivity. Qed.
+Print Assumptions C17_every_integer_is_exact.
+
+(* ... and for EVERY letter-case spelling of an option keyword *)
+Theorem C17_every_keyword_spelling : forall kw k,
+  upper kw = k -> sforall is_word_c kw = true -> startswith k "ARRAY" = false -> is_kw kw k = true.
+Proof. exact any_case_is_kw. Qed.
+Print Assumptions C17_every_keyword_spelling.
 
 (* non-vacuity: a concrete statement with every kind of option, mixed case, a negative and a 64-bit value,
    meets the hypothesis, and the theorem's right-hand side is the expected entity *)
